@@ -2,6 +2,8 @@ import GldapModel.Gldap.Session
 import GldapModel.Props.C01
 import GldapModel.Props.C03
 import GldapModel.Props.C04
+import GldapModel.Props.C05
+import GldapModel.Proofs.ParseConsumes
 /-! # End to end: from the bytes a client sends on a connection to the bytes it reads back
 
 Composition of C01 (decoding), C03 (routing), C04 (responses) and the byte-level half of C10
@@ -233,6 +235,137 @@ theorem respond_wire_ids (ext : Nat → Bytes → Bool) (table) (g : Guards) (cf
     simp only [hp, Option.map_some, Option.some.injEq, Prod.mk.injEq] at h ⊢
     obtain ⟨h1, h2⟩ := h
     simp [h1, h2, viewOfResp_messageID, hid]
+
+
+/-! ### the frame budget is immaterial -/
+
+theorem frameRest_len (env : Env) (g : Guards) (bs : Bytes) (msg : Msg) (h : serveFrame env g bs = .ok msg) :
+    (frameRest env bs).length + 2 ≤ bs.length := by
+  unfold serveFrame at h
+  unfold frameRest
+  cases hp : readPacket env.ext bs with
+  | none => simp [hp] at h
+  | some pr =>
+    obtain ⟨p, r⟩ := pr
+    exact readPacket_len env.ext bs p r hp
+
+/-- any frame budget above the length of the stream gives the same session: the reader takes at
+    least two bytes per frame, so the budget never runs out before the stream does -/
+theorem session_fuel (env : Env) (table) (g : Guards) (cfg : Cfg) (f1 f2 : Nat) (bs : Bytes)
+    (h1 : bs.length < f1) (h2 : bs.length < f2) :
+    session env table g cfg f1 bs = session env table g cfg f2 bs := by
+  induction f1 generalizing bs f2 with
+  | zero => omega
+  | succ f1 ih =>
+    cases f2 with
+    | zero => omega
+    | succ f2 =>
+      rw [session, session]
+      by_cases hb : bs.isEmpty = true
+      · simp [hb]
+      · simp only [hb]
+        cases hs : serveFrame env g bs with
+        | err => rfl
+        | panic => rfl
+        | ok msg =>
+          have hl := frameRest_len env g bs msg hs
+          by_cases hu : msg.isUnbind = true
+          · simp [hu]
+          · simp only [hu]
+            rw [ih f2 (frameRest env bs) (by omega) (by omega)]
+
+/-! ### gldap's own code never crashes a session (C02 along the whole stream) -/
+
+/-- whatever bytes arrive on a connection, in whatever order and however damaged: with the guards
+    of the current source the read loop never ends in a panic of gldap's own decoding -/
+theorem session_never_crashes (env : Env) (table) (g : Guards) (hg : g.decodeAll = true) (cfg : Cfg)
+    (fuel : Nat) (bs : Bytes) : (session env table g cfg fuel bs).2 ≠ .crashed := by
+  induction fuel generalizing bs with
+  | zero => simp [session]
+  | succ fuel ih =>
+    rw [session]
+    by_cases hb : bs.isEmpty = true
+    · simp [hb]
+    · simp only [hb]
+      cases hs : serveFrame env g bs with
+      | err => simp
+      | panic =>
+        rcases C02_frames env g hg bs with ⟨m, hm⟩ | he
+        · rw [hs] at hm; contradiction
+        · rw [hs] at he; contradiction
+      | ok msg =>
+        by_cases hu : msg.isUnbind = true
+        · simp [hu]
+        · simp only [hu]; exact ih _
+
+theorem session_never_crashes_current (env : Env) (cfg : Cfg) (fuel : Nat) (bs : Bytes) :
+    (session env Generated.refusalTable Generated.guards cfg fuel bs).2 ≠ .crashed :=
+  session_never_crashes env _ _ (by decide) cfg fuel bs
+
+/-! ### every frame of a session answers one of the requests read on it -/
+
+theorem framesFor_ids (table) (g : Guards) (cfg : Cfg) (msg : Msg) :
+    ∀ f ∈ framesFor table g cfg msg, ∃ r : Resp, f = responseBytes r ∧ r.messageID = msg.id := by
+  intro f hf
+  unfold framesFor at hf
+  split at hf
+  · simp only [respondUnbind, List.mem_map] at hf
+    obtain ⟨r, hr, rfl⟩ := hf
+    refine ⟨r, rfl, ?_⟩
+    unfold respondUnbindR at hr
+    split at hr
+    · exact runScript_ids g msg.id _ r hr
+    · simp at hr
+  · simp only [respond, List.mem_map] at hf
+    obtain ⟨r, hr, rfl⟩ := hf
+    exact ⟨r, rfl, respond_ids table g cfg msg r hr⟩
+
+/-- for arbitrary input bytes: each frame the connection writes is the encoding of a response
+    whose message id is that of a request decoded from those bytes -/
+theorem session_ids (env : Env) (table) (g : Guards) (cfg : Cfg) (fuel : Nat) (bs : Bytes) :
+    ∀ f ∈ (session env table g cfg fuel bs).1,
+      ∃ msg ∈ sessionMsgs env g fuel bs, ∃ r : Resp, f = responseBytes r ∧ r.messageID = msg.id := by
+  intro f hf
+  rw [session_frames, List.mem_flatMap] at hf
+  obtain ⟨msg, hm, hf⟩ := hf
+  exact ⟨msg, hm, framesFor_ids table g cfg msg f hf⟩
+
+
+/-! ### pipelining clients: the sequential answers, interleaved frame-wise (composition with C05) -/
+
+/-- request number `w` of a pipeline is answered by its own writer (conn.go dispatches every
+    request other than StartTLS and Unbind to its own goroutine) -/
+def pipelineFrames (table : Option (List (Bytes × Nat))) (g : Guards) (cfg : Cfg) (msgs : List Msg) : Nat → List Bytes :=
+  fun w => match msgs[w]? with
+    | some m => framesFor table g cfg m
+    | none => []
+
+/-- **Whatever the schedule of the handlers of a pipeline:** once they are all done, the wire
+    holds whole frames only, and the frames of request `w` are exactly the frames the sequential
+    model writes for it, each once and in their order - the stream differs from the lock-step
+    session only in how the per-request frame lists are interleaved. Every frame carries the
+    message id of the request whose handler wrote it. -/
+theorem pipelined_session (table) (g : Guards) (cfg : Cfg) (msgs : List Msg)
+    (ls : List (Nat × Nat)) (s : Writer.WS)
+    (hr : Writer.run Writer.good (Writer.init (pipelineFrames table g cfg msgs)) ls = some s)
+    (hfree : s.mutex = none) (hdone : ∀ w, s.todo w = []) :
+    s.wire = Writer.flat s.done ∧
+    (∀ w, Writer.doneOf s w = pipelineFrames table g cfg msgs w) ∧
+    (∀ e ∈ s.done, ∃ m r, msgs[e.1]? = some m ∧ e.2 = responseBytes r ∧ r.messageID = m.id) := by
+  obtain ⟨h1, h2⟩ := Writer.C05_quiescent (pipelineFrames table g cfg msgs) ls s hr hfree hdone
+  refine ⟨h1, h2, ?_⟩
+  intro e he
+  have hmem : e.2 ∈ Writer.doneOf s e.1 := by
+    simp only [Writer.doneOf, List.mem_map, List.mem_filter]
+    exact ⟨e, ⟨he, by simp⟩, rfl⟩
+  rw [h2 e.1] at hmem
+  unfold pipelineFrames at hmem
+  cases hm : msgs[e.1]? with
+  | none => simp [hm] at hmem
+  | some m =>
+    simp only [hm] at hmem
+    obtain ⟨r, hr1, hr2⟩ := framesFor_ids table g cfg m e.2 hmem
+    exact ⟨m, r, rfl, hr1, hr2⟩
 
 /-! ### the built-in refusal on the wire -/
 
